@@ -12,6 +12,7 @@ import (
 	"errors"
 	"fmt"
 	"runtime/debug"
+	"slices"
 	"sync/atomic"
 	"testing"
 	"time"
@@ -563,6 +564,41 @@ func runSema(rc *kernel.RunCtx, k *kernel.Kernel, misuse bool) {
 				return
 			}
 		}
+		// An Acquire whose context is done, while every slot is certainly held
+		// and no Release is in progress, that waits for a lock of the
+		// implementation - and nothing inside the implementation can move:
+		// every other task is outside the code under test or durably blocked
+		// in it (not parked at a yield inside a critical section, which would
+		// be an artefact of cooperative scheduling).  Whoever holds that lock
+		// holds it for as long as the environment pleases; the waiting call
+		// cannot return its context's error, though that is what the
+		// statement demands of it now.
+		if misuse || nHolding() != capacity || slices.Contains(inRel, true) {
+			return
+		}
+		for i, t := range tasks {
+			if !inAcq[i] || !cancelled[i] || !t.IsLockWaiting() {
+				continue
+			}
+			still := true
+			for _, o := range k.Tasks() {
+				switch {
+				case o == t || o.Exited() || o.IsBlocked():
+				case o.Dynamic:
+					still = false
+				case o.Idx < nTasks && o == tasks[o.Idx] && !inAcq[o.Idx] && !inRel[o.Idx]:
+				case o.Daemon:
+				default:
+					still = false
+				}
+			}
+			if still {
+				k.Fail("acquire-ignores-done-context", "ChanSemaphore.Acquire",
+					"Acquire of "+t.Name+" waits for a lock that a blocked call holds, although its context is done, every slot is held and nothing inside the semaphore can move")
+
+				return
+			}
+		}
 	}
 
 	for ti := 0; ti < nTasks; ti++ {
@@ -596,6 +632,13 @@ func runSema(rc *kernel.RunCtx, k *kernel.Kernel, misuse bool) {
 							// becomes free before its select.
 							op = doAcquire
 							issuedDone[ti] = true
+							// Exclusive running is a request, not a guarantee: an
+							// implementation with a lock of its own can make this
+							// task wait for a task that is parked inside the code
+							// under test, and the others then run (and release)
+							// meanwhile.  Releases invoked from here on are
+							// counted, and a nil result after one is not judged.
+							relSinceCancel[ti] = 0
 							k.Exclusive = tasks[ti]
 							rc.Stats.Probe("sema-acquire-on-done-context")
 						}
@@ -628,7 +671,7 @@ func runSema(rc *kernel.RunCtx, k *kernel.Kernel, misuse bool) {
 						issuedDone[ti] = false
 						if err == nil {
 							k.Logf("  T", kernel.Itoa(ti), " Acquire = nil")
-							if !misuse && !wasDone && cancelled[ti] && relSinceCancel[ti] > 0 {
+							if !misuse && cancelled[ti] && relSinceCancel[ti] > 0 {
 								// A slot was released after the cancellation
 								// and before this Acquire came back: taking it
 								// is not excluded by the statement.
